@@ -159,9 +159,11 @@ def gen_case(rng, k, tier, force_nc=False):
                     p = rng.choice(prev)
                     op.update({"s": p["s"], "e": p["e"], "fill": p["fill"], "slice": p["slice"]})
         elif r < 0.30:
-            op = {"op": "read", "fs": rng.randrange(nfs + moves), "pick": rng.randrange(64)}
+            op = {"op": "read", "fs": rng.randrange(nfs + moves), "pick": rng.randrange(64),
+                  "pre_args": rng.choice([0, 0, 1001, 2002])}
         elif r < 0.36:
-            op = {"op": "get", "fs": rng.randrange(nfs + moves), "pick": rng.randrange(64)}
+            op = {"op": "get", "fs": rng.randrange(nfs + moves), "pick": rng.randrange(64),
+                  "pre_args": rng.choice([0, 0, 3003, 4004])}
         elif r < 0.50:
             f = rng.randrange(nfs + moves)
             op = {"op": "collect", "fs": f, "slice": rng.random() < 0.4, **gen_sel(rng, anchor, filesets[f % nfs])}
